@@ -609,4 +609,24 @@ does not -/
 theorem blockResponse_stop_iff (ok : Bool) : blockResponseDecide ok = .stop ↔ ok = false := by
   cases ok <;> simp [blockResponseDecide]
 
+/-! ## the accept path: a hostile handshake never takes the node down -/
+
+open Tmv.ReactorMsgs in
+/-- Every failure of the accept path that a remote peer can cause — at any stage: connection
+filters, secret connection, NodeInfo exchange (garbled, oversized, truncated, missing), NodeInfo
+validation, id checks, compatibility, even a panic inside the upgrade — reaches
+`Switch.acceptRoutine` as `ErrRejected` or `ErrFilterTimeout`, for which the routine logs and
+CONTINUES; it panics ("accept routine exited") only on errors no peer can cause (the resolver
+failing on the remote address, the listener failing), and exits on `ErrTransportClosed`. -/
+theorem peer_caused_accept_failure_never_panics (f : AcceptFailure) (h : f.peerCaused = true) :
+    acceptRoutineOn (acceptErrOf f) = .continue ∧
+    (acceptErrOf f = .rejected ∨ acceptErrOf f = .filterTimeout) := by
+  cases f <;> simp_all [AcceptFailure.peerCaused, acceptErrOf, acceptRoutineOn]
+
+open Tmv.ReactorMsgs in
+/-- the routine panics exactly on the two local failures -/
+theorem acceptRoutine_panics_iff (f : AcceptFailure) :
+    acceptRoutineOn (acceptErrOf f) = .panic ↔ (f = .resolveIPs ∨ f = .listenerFails) := by
+  cases f <;> simp [acceptErrOf, acceptRoutineOn]
+
 end Tmv.Props.C17
